@@ -73,6 +73,20 @@ def families(tier, rng):
             for fu in fkeys[:3]:
                 x = LOGIN + [["send", 1, "PASV"], ["dconnect", 1], ["hold", 1, hw], ["send", 1, (verb + " " + arg).strip()], ["send", 1, "ABOR"], ["send", 1, "PWD"]]
                 fam.append(("held:%s" % verb, x + FOLLOW[fu] + FOLLOW["retr"]))
+    # (vi) the aborted worker's clean-up is slow (its file close is held) while the client already prepares the next transfer:
+    #      new PASV / EPSV, new data connection, then the clean-up completes, then the next transfer runs
+    for verb, arg in (("RETR", "f"), ("RETR", "d/g")):
+        for nxt in ("PASV", "EPSV", None):
+            for follow in ("RETR f", "LIST", "STOR n2"):
+                x = LOGIN + [["send", 1, "PASV"], ["dconnect", 1], ["hold", 1, 4], ["gate", 1, "close", 1], ["send", 1, verb + " " + arg], ["send", 1, "ABOR"]]
+                x += ([["send", 1, nxt]] if nxt else []) + [["dconnect", 1], ["release", 1], ["send", 1, "PWD"], ["send", 1, follow]]
+                x += ([["dsend", 1, [4, 5]]] if follow.startswith("STOR") else []) + [["deof", 1], ["send", 1, "PWD"]]
+                fam.append(("slowcleanup:%s" % verb, x))
+    for verb, data in (("STOR n1", [1, 2, 3]), ("APPE f", [9])):
+        for nxt in ("PASV", None):
+            x = LOGIN + [["send", 1, "PASV"], ["dconnect", 1], ["gate", 1, "close", 1], ["send", 1, verb], ["dsend", 1, data], ["send", 1, "ABOR"]]
+            x += ([["send", 1, nxt]] if nxt else []) + [["dconnect", 1], ["release", 1], ["send", 1, "PWD"], ["send", 1, "RETR f"], ["deof", 1], ["send", 1, "PWD"]]
+            fam.append(("slowcleanup:%s" % verb.split()[0], x))
     # (iii) nothing to abort
     fam.append(("none", LOGIN + [["send", 1, "ABOR"], ["send", 1, "ABOR"]] + FOLLOW["retr"]))
     fam.append(("none", [["connect", 1], ["send", 1, "ABOR"], ["send", 1, "USER u1"], ["send", 1, "ABOR"], ["send", 1, "PASS pw1"], ["send", 1, "ABOR"]]))
